@@ -188,6 +188,47 @@ Proof.
     + destruct (IH _ _ _ _ W1 Hnd' Ed q Hq) as [f [Hf Ht]]. exists f. split; [assumption | lia].
 Qed.
 
+Lemma nodup_app_parts {A} (l1 l2 : list A) :
+  NoDup (l1 ++ l2) -> NoDup l1 /\ NoDup l2 /\ (forall x, In x l1 -> ~ In x l2).
+Proof.
+  induction l1 as [|a l1 IH]; cbn; intros H.
+  - split; [constructor|]. split; [assumption | tauto].
+  - inversion H as [|? ? Hn Hd]; subst. destruct (IH Hd) as [A1 [A2 A3]]. split; [|split; [assumption|]].
+    + constructor; [|assumption]. intros Hin. apply Hn. apply in_or_app. now left.
+    + intros x [->|Hx]; [intros Hin; apply Hn; apply in_or_app; now right | now apply A3].
+Qed.
+
+Lemma download_chunks_fresh cs : forall s s' bs,
+  W s -> NoDup (map q_name (concat cs)) -> download_chunks s cs = (s', bs, DlOk) ->
+  forall q, In (q, true) (combine (concat cs) bs) ->
+            exists f, dfind (disk s') (q_name q) = Some f /\ clock s <= ftime f.
+Proof.
+  induction cs as [|c cs IH]; intros s s' bs HW Hnd H q Hq; cbn [download_chunks concat] in *.
+  - injection H as <- <-. destruct Hq.
+  - destruct (download s c) as [[s1 bs1] st1] eqn:E1.
+    destruct (download_chunks s1 cs) as [[s2 bs2] st2] eqn:E2. injection H as <- <- Hm.
+    apply merge_ok in Hm. destruct Hm as [-> ->].
+    destruct (download_spec _ _ _ _ _ HW E1) as [W1 [_ [_ [_ [C1 [_ [_ [_ [_ L1]]]]]]]]].
+    destruct (download_chunks_spec _ _ _ _ _ W1 E2) as [_ [_ [_ [_ [_ [_ [_ [_ [D2 _]]]]]]]]].
+    rewrite map_app in Hnd. destruct (nodup_app_parts _ _ Hnd) as [N1 [N2 N3]].
+    rewrite combine_app_eq in Hq by now apply L1. apply in_app_or in Hq. destruct Hq as [Hq|Hq].
+    + destruct (download_fresh _ _ _ _ _ HW N1 E1 q Hq) as [f [Hf Ht]]. exists f. split; [|assumption].
+      rewrite D2; [assumption|]. intros q' Hq'. split; [|discriminate].
+      intros E. apply (N3 (q_name q)); [apply in_map; now apply in_combine_l in Hq | rewrite E; now apply in_map].
+    + destruct (IH _ _ _ W1 N2 E2 q Hq) as [f [Hf Ht]]. exists f. split; [assumption | lia].
+Qed.
+
+Lemma download_all_fresh s ms s' bs :
+  W s -> NoDup (map q_name ms) -> download_all s ms = (s', bs, DlOk) ->
+  forall q, In (q, true) (combine ms bs) ->
+            exists f, dfind (disk s') (q_name q) = Some f /\ clock s <= ftime f.
+Proof.
+  intros HW Hnd H. unfold download_all in H. destruct (par s && Nat.ltb 1 (length ms)).
+  - pose proof (download_chunks_fresh (chunks_of (length ms) ms) s s' bs HW) as Hf.
+    rewrite (concat_chunks_of (length ms) ms) in Hf by lia. now apply Hf.
+  - now apply (download_fresh ms s s' bs DlOk).
+Qed.
+
 Lemma combine_nodup_bool ms : forall (bs : list bool) q q' (b b' : bool),
   NoDup (map q_name ms) -> In (q, b) (combine ms bs) -> In (q', b') (combine ms bs) ->
   q_name q = q_name q' -> b = b'.
@@ -313,11 +354,11 @@ Proof.
   destruct (classify_props _ _ _ _ HW Ec) as [W1 [Cov1 [Sz1 [Mx1 [Al1 [Ck1 [Inc1 [Sub1 Mis1]]]]]]]].
   destruct (classify_frame _ _ _ _ Ec) as [Fr1 [Fe1 _]].
   pose proof (nodup_map_incl_sub l ms s s1 HW Hnd Ec) as Hndm.
-  destruct (download s1 ms) as [[s2 bs] st] eqn:Ed.
-  destruct (download_props _ _ _ _ _ W1 Ed) as [W2 [E2 [M2 [A2 [C2 [F2 [K2 [R2 [D2 L2]]]]]]]]].
+  destruct (download_all s1 ms) as [[s2 bs] st] eqn:Ed.
+  destruct (download_all_spec _ _ _ _ _ W1 Ed) as [W2 [E2 [M2 [A2 [C2 [F2 [K2 [R2 [D2 L2]]]]]]]]].
   destruct st; try discriminate.
   destruct (register s2 (map q_name l) ms bs) as [s3 paths'] eqn:Er.
-  destruct (register_props _ _ _ _ _ _ W2 Er R2) as [W3 [D3 [M3 [A3 [C3 [E3 I3]]]]]].
+  destruct (register_props _ _ _ _ _ _ W2 Er (R2 eq_refl)) as [W3 [D3 [M3 [A3 [C3 [E3 I3]]]]]].
   set (s4 := if total_size (disk s3) paths' >? maxb s3 then set_maxb s3 (total_size (disk s3) paths' + MEGABYTE) else s3) in *.
   assert (Hs4 : disk s4 = disk s3 /\ entries s4 = entries s3 /\ total_size (disk s3) paths' <= maxb s4).
   { unfold s4. destruct (Z.gtb_spec (total_size (disk s3) paths') (maxb s3)); cbn; repeat split; unfold MEGABYTE; lia. }
@@ -349,7 +390,7 @@ Proof.
       + apply (register_paths _ _ _ _ _ _ Er).
         * apply in_map. apply Inc1. now apply in_combine_l in Hq.
         * intros q' Hq' E. pose proof (combine_nodup_bool ms bs q' q false true Hndm Hq' Hq E). discriminate.
-      + destruct (download_fresh _ _ _ _ _ W1 Hndm Ed q Hq) as [f [Hf Ht]]. exists f. rewrite D3. split; [assumption | lia]. }
+      + destruct (download_all_fresh _ _ _ _ W1 Hndm Ed q Hq) as [f [Hf Ht]]. exists f. rewrite D3. split; [assumption | lia]. }
   (* every returned path is registered in s3 *)
   assert (Hreg : forall x, In x paths' -> In x (entries s3)).
   { intros x Hx. pose proof (Hret x Hx) as Hin. apply in_map_iff in Hin. destruct Hin as [q [Hqn Hq]]. subst x.
